@@ -190,6 +190,18 @@ let zcs (cs : int list list) = List.map zc cs
 let set_of_z (c : Model.z list) = List.sort_uniq compare (Conv.ints_of_zlist c)
 let sets_of_zz (cs : Model.z list list) = List.sort compare (List.map set_of_z cs)
 
+(* K38 input class: applying the edit to the source clause set a SECOND time (adjust_intern_cnf of
+   the model, which unit-propagates in between) changes the formula: some clause was shortened to
+   one of the removed clauses *)
+let second_round_differs (cls : int list list) (n : int) (adds : int list list) (rmvs : int list list) : bool =
+  rmvs <> [] && cls <> [] &&
+  begin
+    let once = E.adjust_intern_cnf (zcs cls) (zcs adds) (zcs rmvs) in
+    let twice = E.adjust_intern_cnf once (zcs adds) (zcs rmvs) in
+    let ms x = models_of_cls (List.map Conv.ints_of_zlist x) n in
+    ms once <> ms twice
+  end
+
 let reduced_text (r : Model.z list option) : string list =
   match r with
   | None -> ["none"]
@@ -295,10 +307,15 @@ let check (b : block) : verdict list =
             | Some _ -> (match List.assoc_opt "root0" (match List.filter (fun (x : step) -> x.k = s.k - 1) steps with
                 | p :: _ -> p.bat | [] -> []) with Some ["1"] -> Some true | Some ["0"] -> Some false | _ -> None)
             | None -> None in
+          (* find_and_remove = cache_find over the keys (first matching entry from the front) *)
           let hit = match !cache with
             | Unknown -> None
             | Known l ->
-              Some (List.find_opt (fun en -> E.cache_matches (zcs en.c_add) (zcs en.c_rmv) (zcs op_add) (zcs op_rmv)) l) in
+              let found = List.find_opt (fun en -> E.cache_matches (zcs en.c_add) (zcs en.c_rmv) (zcs op_add) (zcs op_rmv)) l in
+              (match E.cache_find (List.map (fun en -> (zcs en.c_add, zcs en.c_rmv)) l) (zcs op_add) (zcs op_rmv), found with
+               | Some _, Some _ | None, None -> ()
+               | _ -> add (Diff ("cache_find", ctx ^ ": cache_find and cache_matches disagree")));
+              Some found in
           (match s.panic, hit, root0 with
            | None, Some h, Some r0 ->
              let facts = { E.cache_hit = (h <> None); ig_nvars = Conv.z_of_int !ig_nvars;
@@ -322,9 +339,14 @@ let check (b : block) : verdict list =
              (match op_add with
               | [[l]] -> stored := sets_of_zz (E.adjust_intern_cnf (zcs !stored) [zc [l]] [])
               | _ -> ());
-             ig_nvars := max !ig_nvars (maxvar op_add)
+             ig_nvars := max !ig_nvars (maxvar op_add);
+             (* add_unit_clause re-creates the cache (repair F17): E.cache_after_unit = [] whatever it held *)
+             cache := Known []
            | "SubDAGReplacement" | "Recompile" ->
-             stored := sets_of_zz (E.adjust_intern_cnf (zcs !stored) (zcs op_add) (zcs op_rmv));
+             (* Recompile adjusts the stored list twice (transform_to_cnf_from_starting_cnf, then
+                recompile_everything): E.recompile_stored, finding K38 *)
+             stored := sets_of_zz ((if strat = "Recompile" then E.recompile_stored else E.adjust_intern_cnf)
+                                     (zcs !stored) (zcs op_add) (zcs op_rmv));
              ig_nvars := max !ig_nvars (maxvar op_add);
              let en = { c_add = op_add; c_rmv = op_rmv; right = (strat = "Recompile"); stored_at_push = !stored } in
              cache := (if en.right then Known [en]
@@ -364,8 +386,9 @@ let check (b : block) : verdict list =
              step may stay invisible until a later one: the stored clause list is already wrong) ---- *)
           let new_var = List.exists (fun c -> List.exists (fun l -> abs l > st.n) c) adds in
           let unit_old = (match adds, rmvs with [[l]], [] -> abs l <= st.n | _ -> false) in
-          (* the shape that takes the unit path: exactly one added clause (after reduce_clause; a
-             repeated clause counts twice), of one literal, over an existing variable *)
+          (* the shape of op_add that the unit path needs: exactly one added clause (after
+             reduce_clause; a repeated clause counts twice), of one literal, over an existing variable
+             (the unit path is taken when, in addition, nothing is removed: C11_dispatch_unit_iff) *)
           let unit_shape = (match op_add with [[l]] -> abs l <= st.n | _ -> false) in
           let earlier_undo = List.mem "Undo" !strategies in
           let earlier_unit = List.mem "UnitClause" !strategies in
@@ -389,9 +412,17 @@ let check (b : block) : verdict list =
               (* the exact inverse of an OLDER edit of this history (other edits in between) *)
               let inverse_of_older =
                 List.exists (fun p -> e <> [] && List.sort compare (List.map (fun (a, c) -> (not a, c)) p) = e) !older_edits in
-              (* K34 is about older entries surviving edits that leave NO entry of their own (unit
-                 edits, ignored edits); an older entry that survives an edit which pushed its own
-                 entry (sub-DAG replacement, recompile, undo) is a different defect *)
+              (* an older entry that survives an edit which pushed its own entry (sub-DAG replacement,
+                 recompile, undo) and is then answered Undo: edit:undo-stale-after-entry.
+                 DETECTORS for repaired defects (no finding line: an occurrence is a VIOLATION), named
+                 by the observable misbehaviour, not by the shape of the input:
+                   edit:undo-stale           Undo for the inverse of an OLDER edit with only entry-less
+                                             edits (unit edits, ignored edits) in between - K34,
+                                             repaired by F17 (add_unit_clause re-creates the cache)
+                   edit:undo-partial-match   Undo for an edit that is the inverse of no edit of the
+                                             history - K25, repaired by F15 (cache match in both directions)
+                   edit:unit-add-drops-removal  UnitClause for an edit that removes clauses - K26,
+                                             repaired by F16 (C11_dispatch_removal_not_unit) *)
               let between_left_entry =
                 let inv p = e <> [] && List.sort compare (List.map (fun (a, c) -> (not a, c)) p) = e in
                 let rec go acc = function
@@ -402,11 +433,16 @@ let check (b : block) : verdict list =
               if strat = "Undo" && not is_inverse && inverse_of_older && between_left_entry then Some "edit:undo-stale-after-entry"
               else if strat = "Undo" && not is_inverse && inverse_of_older then Some "edit:undo-stale"
               else if strat = "Undo" && not is_inverse then Some "edit:undo-partial-match"
+              else if strat = "UnitClause" && rmvs <> [] then Some "edit:unit-add-drops-removal"
               else if earlier_undo then Some "edit:after-undo-stale-cnf"
               else if rmvs <> [] && unit_reducible cls then Some "edit:clause-removal"
-              else if List.length rmvs >= 2 then Some "edit:multi-clause-removal"
-              else if adds <> [] && not unit_shape && cls = [] then Some "edit:add-on-empty-cnf"
-              else if unit_shape && rmvs <> [] then Some "edit:unit-add-drops-removal"
+              (* K38: Recompile applies the edit to the stored clause list twice; a clause of the formula
+                 (not removed, not re-added) that the unit clauses of the edited formula shorten to one of
+                 the removed clauses is removed in the second round *)
+              else if strat = "Recompile" && second_round_differs cls (max st.n (maxvar adds)) adds rmvs then Some "edit:recompile-removes-shortened-clause"
+              (* K27: empty clause list and an edit that does not take the unit path (since F16 also a
+                 unit clause that comes with removals): the general path returns early *)
+              else if adds <> [] && not (unit_shape && rmvs = []) && cls = [] then Some "edit:add-on-empty-cnf"
               else if present_rmvs <> [] && core_shrinks && strat = "SubDAGReplacement" then Some "edit:removal-frees-core"
               else if new_var && strat = "SubDAGReplacement" then Some "edit:new-variable-subdag"
               else if free_feature && strat = "SubDAGReplacement" then Some "edit:free-feature-subdag"
